@@ -2628,3 +2628,40 @@ def shutdown_drains_every_flushed_log(ctx, p):
     ctx.ob(p + 'a final-drain-empties-the-hand-over-queue', 'K3-loop-exit', k.path,
            'after the last flush, kill_logs reaches the cleaning of the logs only through a test of the hand-over queue, and with files still queued it goes back to enact_logs (enact_logs reports the end of every log file, not the end of the work)',
            ok, '' if ok else det, k.loc(ca[0]))
+
+
+def last_reference_removal_waits_for_readers(ctx, p):
+    """seed C11-childless-root-removed-without-lock. The deferral test of the log worker and the removal of a root are not one
+    step: a client that locks the reader in between is protected by the worker's own `tree.write()` - it waits there until the
+    reader is released, so the record that removes the root is not published under the reader's guard. That wait is for the ROOT,
+    not for the walk over its children: whether the lock is taken must not depend on the shape of the tree (an empty child list
+    skips nothing but the walk)."""
+    F = ctx.F
+    wpl = ctx.body('db::IndexedChangeSet::write_plan')
+    if not wpl:
+        return
+    n = 0
+    for b in lib.family(F, wpl.path):
+        if not b.path.startswith('db::') or b.path == 'db::IndexedChangeSet::write_dereference_children_plan':
+            continue
+        for lk, t in b.calls():
+            if lk not in b.normal_blocks() or not call_matches(t, ['re:RwLock.*::write$']) or 'TreeReader' not in str(t.get('rty', '')):
+                continue
+            n += 1
+            shape = []
+            for (sw, yes, no) in b.control_deps(lk):
+                tm = b.term(sw)
+                pl = op_place(tm['a']) if tm['k'] == 'switch' else None
+                if pl is None:
+                    continue
+                sl = backward_slice(b, [pl])
+                kids = any(re.search(r'unpack_node_data$|unpack_node_children$', c) for c in sl.calls) and any(re.search(r'(Vec|slice).*::(is_empty|len)$|<\[T\]>::(is_empty|len)$', c) for c in sl.calls)
+                stored = any(re.search(r'NodeChange\.2$', f) for f in sl.fields)
+                # a parameter that is the child list (the arm extracted into a helper)
+                plist = [l for l in sl.params if re.search(r'Vec<u64>|\[u64\]|Children', str(b.locals[l]))]
+                if kids or stored or plist:
+                    shape.append(b.loc(sw))
+            ctx.ob(p + ' root-removal-locks-the-reader-whatever-the-tree-looks-like %s' % lib.strip_closures(b.path), 'K3-guard', b.path,
+                   'the write lock of the tree reader that the removal of a last reference takes does not depend on the child list of the root (the lock makes the worker wait for a reader of the ROOT; a childless tree has a reader too)',
+                   not shape, 'the lock is taken only depending on the child list (tested at %s)' % shape, b.loc(lk))
+    ctx.ob(p + '0 removal-lock-anchor', 'anchor', wpl.path, 'the planning of a tree removal write-locks the tree reader somewhere', n >= 1, 'sites %d' % n)
